@@ -7,8 +7,8 @@ Peano-Baker series of Spec/PeanoBaker.v.  The list model of the table assembly
 provenance (which samples each row depends on) for random n and irregular dyadic stamps.
 
 Numerical support / falsifier on the implementation (independent oracle: the exact attitude
-matrix C(T) and u(T) = int C f by the Taylor-series solution of the ODEs to order 30 in
-binary64, cross-checked against scipy DOP853): error-vs-interval slopes for closed-form linear
+matrix C(T) and u(T) = int C f by composed Taylor-series steps (order 20, <= 20 ms each) of the ODEs in
+binary64, self-checked by the semigroup property / a higher order and against scipy DOP853): error-vs-interval slopes for closed-form linear
 and sinusoidal 3-axis signals, rate and increment types.
 
 Orders tested (what the property text states; "documented algorithm order" is read from the
@@ -18,8 +18,8 @@ force": local error O(T^3), i.e. slope 3):
                     dv + (a x (a x d)) T^3/6 (the only cubic discrepancy removed) -> >= 3.8 (4)
                     dv                                        -> >= 2.8 (3)
   sinusoidal        theta, dv                                 -> >= 2.8 (3 rate / 4,3 increment)
-Margins: slopes are taken between T = 40 ms and 10 ms on the maximum error over a 0.64 s
-window (errors there are >= 1e-12, i.e. >= 1e4 x rounding); the threshold is the order - 0.2.
+Margins: slopes are taken between T = 20 ms and 5 ms (40 and 10 ms when the 5 ms error is below
+1e-12 = 1e4 x rounding) on the maximum error over a 0.64 s window; the threshold is the order - 0.2.
 """
 import math
 import random
@@ -34,7 +34,8 @@ RULE = ("translator: both traced functions validated on 60 random inputs per run
 F2_KEY = 'increment-unequal-intervals-cubic'
 COLS_TH = ['theta_x', 'theta_y', 'theta_z']
 COLS_DV = ['dv_x', 'dv_y', 'dv_z']
-NTAYLOR = 30
+NTAYLOR = 20
+HMAX = 0.02
 
 
 # ---------------------------------------------------------------------------
@@ -120,7 +121,7 @@ def random_signals(rng, kind, tc):
 # ---------------------------------------------------------------------------
 # oracle: series solution of C' = C [w x], u' = C f about tau (independent of the algorithm)
 
-def exact(om, f, tau, T, n=NTAYLOR):
+def exact_step(om, f, tau, T, n):
     W = [_skew(w) for w in om.taylor(tau, n)]
     F = f.taylor(tau, n)
     C = [np.eye(3)]
@@ -136,6 +137,19 @@ def exact(om, f, tau, T, n=NTAYLOR):
         ut += U[k] * p
         p *= T
     return Ct, ut
+
+
+def exact(om, f, tau, T, n=NTAYLOR, hmax=HMAX):
+    """C(tau -> tau + T), u: composition of series steps of length <= hmax (semigroup property), where
+    the order-n series has converged to rounding for signals up to 2 Hz (checked each run)."""
+    m = max(1, int(math.ceil(T / hmax - 1e-9)))
+    h = T / m
+    C, u = np.eye(3), np.zeros(3)
+    for j in range(m):
+        Cj, uj = exact_step(om, f, tau + j * h, h, n)
+        u = u + C @ uj
+        C = C @ Cj
+    return C, u
 
 
 def exact_ivp(om, f, tau, T):
@@ -194,7 +208,8 @@ def window_max(om, f, stamps, typ):
 
 
 SPAN = 0.64
-TS = [0.16, 0.08, 0.04, 0.02, 0.01]
+TS = [0.16, 0.08, 0.04, 0.02, 0.01, 0.005]
+SLOPE_MIN_ERR = 1e-12   # slopes use the finest pair of scales (T, T/4) whose errors stay above this (1e4 x rounding)
 
 
 def uniform_stamps(t_start, T, span=SPAN):
@@ -202,22 +217,38 @@ def uniform_stamps(t_start, T, span=SPAN):
     return [t_start + T * k for k in range(n + 1)]
 
 
+def probe_rows(om, f, typ, probes, t_start, T):
+    """irregular stamps: each probe (x, c, q) is the 3-sample table with stamps tau - q T, tau, tau + c T,
+    tau = t_start + x SPAN (previous interval q T, own interval c T; q != c).  The last row of each table
+    is examined.  The same interval START times and shapes are used at every scale T, so that the error
+    of each probe is a clean function of T."""
+    out = []
+    for x, c, q in probes:
+        tau = t_start + x * SPAN
+        out.append(row_errors(om, f, [tau - q * T, tau, tau + c * T], typ)[-1])
+    return out
+
+
 def slope_case(om, f, typ, pattern, t_start):
-    """pattern None: uniform stamps T in TS; else a list of dyadic steps, scaled by 1, 1/2, 1/4, 1/8.
-    Returns (errors array [len x 3], slopes (theta, dv, dv_corrected) between the two finest pairs)."""
+    """pattern None: uniform stamps T in TS over a fixed window of SPAN seconds (long tables); else a list
+    of probes (x, c, q) (see probe_rows) evaluated at the scales T in TS.
+    Returns (errors array [len(TS) x 3]: max over rows, slopes (theta, dv, dv_corrected) from 20 to 5 ms,
+    or 40 to 10 ms when the 5 ms error is within 1e4 x rounding)."""
     E = []
-    if pattern is None:
-        for T in TS:
+    for T in TS:
+        if pattern is None:
             E.append(window_max(om, f, uniform_stamps(t_start, T), typ))
-    else:
-        for sc in (1.0, 0.5, 0.25, 0.125):
-            st = [t_start]
-            for s in pattern:
-                st.append(st[-1] + s * sc)
-            E.append(window_max(om, f, st, typ))
+        else:
+            e = probe_rows(om, f, typ, pattern, t_start, T)
+            E.append(np.array([max(x[k] for x in e) for k in range(3)]))
     E = np.array(E)
-    with np.errstate(divide='ignore', invalid='ignore'):
-        sl = np.log2(E[-3] / E[-1]) / 2
+    sl = np.zeros(3)
+    for k in range(3):
+        j = len(TS) - 1
+        while j > 3 and E[j][k] < SLOPE_MIN_ERR:
+            j -= 1
+        with np.errstate(divide='ignore', invalid='ignore'):
+            sl[k] = np.log2(E[j - 2][k] / E[j][k]) / 2
     return E, sl
 
 
@@ -249,38 +280,41 @@ def judge(kind, E, sl, skip_theta=False):
 
 
 def small_T_case(om, f, typ, t_start, kind, E10):
-    """1, 2, 5 ms: error bounded by the extrapolation of the 10 ms error with the documented order"""
+    """1, 2 ms: error bounded by the extrapolation of the 5 ms error (E10) with the documented order"""
     bad = []
     thr = thresholds(kind)
-    for T in (0.005, 0.002, 0.001):
+    for T in (0.002, 0.001):
         e = window_max(om, f, uniform_stamps(t_start, T, span=32 * T), typ)
         for k, nm in enumerate(('theta', 'dv')):
-            lim = E10[k] * (T / 0.01) ** thr[k] * 4 + FLOOR
+            lim = E10[k] * (T / 0.005) ** thr[k] * 4 + FLOOR
             if e[k] > lim:
-                bad.append(f"{nm} error {e[k]:.3e} at T={T} above {lim:.3e} (order {thr[k]} from 10 ms)")
+                bad.append(f"{nm} error {e[k]:.3e} at T={T} above {lim:.3e} (order {thr[k]} from 5 ms)")
     return bad
 
 
-def irregular_pattern(rng, n=8):
-    # steps: multiples of 1/128 s between 24 and 160 ms (scaled down to 3..20 ms by 1/8)
-    return [rng.randint(3, 20) / 128.0 for _ in range(n)]
+def irregular_pattern(rng, m=10):
+    """probes (x, c, q): interval start at fraction x of the window, own interval c T, previous interval q T
+    with dyadic c in [1/2, 1], q in [1/4, 1], q != c (unequal adjacent intervals, all <= 160 ms)."""
+    out = []
+    for j in range(m):
+        c = rng.randint(8, 16) / 16.0
+        q = rng.choice([k for k in range(4, 17) if k / 16.0 != c]) / 16.0
+        out.append(((j + rng.random()) / m, c, q))
+    return out
 
 
-def f2_measure(om, f, pattern, t_start, scale=1.0):
+def f2_measure(om, f, pattern, t_start, T):
     """increment type, linear signals, unequal adjacent intervals: measured theta discrepancy vs the
     formula of theorem C15_incr_unequal_discrepancy: (a x b) t2 (t1 - t2)(t1 + 2 t2)/24."""
-    st = [t_start]
-    for s in pattern:
-        st.append(st[-1] + s * scale)
-    e = row_errors(om, f, st, 'increment')
+    e = probe_rows(om, f, 'increment', pattern, t_start, T)
     worst = (0.0, None)
     resid = 0.0
-    for i in range(1, len(e)):
-        t1, t2 = st[i] - st[i - 1], st[i + 1] - st[i]
-        pred = np.cross(om.val(st[i]), om.der(st[i])) * t2 * (t1 - t2) * (t1 + 2 * t2) / 24
-        resid = max(resid, np.linalg.norm(e[i][3] - pred))
+    for (x, c, q), ei in zip(pattern, e):
+        tau, t1, t2 = t_start + x * SPAN, q * T, c * T
+        pred = np.cross(om.val(tau), om.der(tau)) * t2 * (t1 - t2) * (t1 + 2 * t2) / 24
+        resid = max(resid, np.linalg.norm(ei[3] - pred))
         if np.linalg.norm(pred) > worst[0]:
-            worst = (float(np.linalg.norm(pred)), dict(t1=t1, t2=t2, tau=st[i], measured=list(map(float, e[i][3])),
+            worst = (float(np.linalg.norm(pred)), dict(t1=t1, t2=t2, tau=tau, measured=list(map(float, ei[3])),
                                                       predicted=list(map(float, pred))))
     return worst, resid
 
@@ -291,14 +325,24 @@ def numeric_statements(r, trials, seed_shift=0, small_T=True):
     """the property's accuracy statements on the implementation.  Returns (fails, stats)."""
     rng = random.Random(r.seed + 1500 + seed_shift)
     fails = []
-    stats = dict(slopes={}, oracle_vs_dop853=0.0, f2=None)
-    # oracle self-check against DOP853
+    stats = dict(slopes={}, oracle_vs_dop853=0.0, oracle_semigroup=0.0, f2=None)
+    # oracle self-checks: against DOP853 (loose: the integrator's own error is ~1e-10), and the semigroup
+    # property  C(tau, T) = C(tau, T/2) C(tau + T/2, T/2),  u = u1 + C1 u2  (tight)
     for kind in ('lin', 'sin'):
         om, f = random_signals(rng, kind, 1.0)
         C1, u1 = exact(om, f, 0.9, 0.16)
         C2, u2 = exact_ivp(om, f, 0.9, 0.16)
         stats['oracle_vs_dop853'] = max(stats['oracle_vs_dop853'], float(np.abs(C1 - C2).max()),
                                         float(np.abs(u1 - u2).max() / 30))
+        Ca, ua = exact_step(om, f, 0.9, 0.01, 40)       # one sub-step at twice the order
+        Cb, ub = exact(om, f, 0.9, 0.01)
+        stats['oracle_semigroup'] = max(stats['oracle_semigroup'], float(np.abs(Ca - Cb).max()),
+                                        float(np.abs(ua - ub).max() / 30))
+        Ca, ua = exact(om, f, 0.9, 0.08)
+        Cb, ub = exact(om, f, 0.98, 0.08, hmax=0.01)
+        stats['oracle_semigroup'] = max(stats['oracle_semigroup'], float(np.abs(Ca @ Cb - C1).max()),
+                                        float(np.abs(ua + Ca @ ub - u1).max() / 30),
+                                        float(np.abs(C1.T @ C1 - np.eye(3)).max()))
     f2_worst = (0.0, None)
     f2_resid = 0.0
     for kind in ('lin', 'sin'):
@@ -309,7 +353,7 @@ def numeric_statements(r, trials, seed_shift=0, small_T=True):
                     t_start = rng.uniform(0.0, 3.0)
                     pattern = None if stamps_kind == 'uniform' else irregular_pattern(rng)
                     # linear signals are centred on the window so that |w| <= 3 rad/s, |f| <= 30 m/s^2 on it
-                    om, f = random_signals(rng, kind, t_start + (SPAN if pattern is None else sum(pattern)) / 2)
+                    om, f = random_signals(rng, kind, t_start + SPAN / 2)
                     r.case(('slope', kind, typ, stamps_kind, trial),
                            sample=dict(kind=kind, typ=typ, stamps=stamps_kind, om=om.to_json(), f=f.to_json()))
                     unequal_incr = (typ == 'increment' and stamps_kind == 'irregular')
@@ -321,8 +365,8 @@ def numeric_statements(r, trials, seed_shift=0, small_T=True):
                     if unequal_incr and kind == 'lin':
                         # dv carries the same cubic factor times (a x e + d x b): judge dv at order 3 only
                         bad = [b for b in bad if not b.startswith('dv+gap')]
-                        w, _ = f2_measure(om, f, pattern, t_start)
-                        w4, rs4 = f2_measure(om, f, pattern, t_start, scale=0.25)
+                        w, _ = f2_measure(om, f, pattern, t_start, 0.16)
+                        w4, rs4 = f2_measure(om, f, pattern, t_start, 0.02)
                         f2_resid = max(f2_resid, rs4 / max(w4[0], 1e-300))
                         if w[0] > f2_worst[0]:
                             f2_worst = (w[0], dict(w[1], om=om.to_json(), f=f.to_json(), pattern=pattern,
@@ -482,8 +526,8 @@ def check(r):
         "pandas/numpy object-dtype code paths behave as the float paths (validated: traced IR vs real function on "
         "60 random float inputs per sensor type per run, exact equality)",
         "binary64 rounding not modelled: theorems are over the reals; 0.5 and 1/12 read as exact rationals",
-        "numerical oracle: binary64 Taylor-series solution (order 30) of the attitude / velocity ODEs, "
-        "cross-checked against scipy DOP853 each run",
+        "numerical oracle: composed binary64 Taylor-series steps (order 20, <= 20 ms) of the attitude / velocity ODEs, "
+        "self-checked (semigroup property, higher order, scipy DOP853) each run",
     ]
     r.assumptions += [
         "C15_partial: the order statement for general smooth (sinusoidal) signals is NOT proved (needs Taylor's theorem "
@@ -504,8 +548,9 @@ def check(r):
     fails2, nstats = numeric_statements(r, 4 if quick else 40)
     r.coverage['numeric_support'] = nstats
     r.coverage['distribution'] = dict(rows=stats['sizes'], slope_cases={k: v['cases'] for k, v in nstats['slopes'].items()})
-    if nstats['oracle_vs_dop853'] > 1e-10:
-        r.broken('oracle', 'Taylor-series oracle disagrees with DOP853', nstats['oracle_vs_dop853'])
+    if nstats['oracle_vs_dop853'] > 1e-8 or nstats['oracle_semigroup'] > 1e-13:
+        r.broken('oracle', 'Taylor-series oracle fails its self-checks (DOP853 / semigroup property)',
+                 (nstats['oracle_vs_dop853'], nstats['oracle_semigroup']))
     for what, rep in (fails + fails2)[:5]:
         r.violation(what, rep)
     f2 = nstats['f2']
@@ -561,7 +606,7 @@ def replay(obj):
         return 1 if bad else 0
     if rep.get('kind') == 'f2':
         om, f = sig_from_json(rep['om']), sig_from_json(rep['f'])
-        w, rs = f2_measure(om, f, rep['pattern'], rep['t_start'])
+        w, rs = f2_measure(om, f, rep['pattern'], rep['t_start'], 0.16)
         print("worst theta discrepancy (rad):", w[0], w[1], "residual vs theorem:", rs)
         return 1 if w[0] > 1e-9 else 0
     print("unknown replay kind")
